@@ -37,6 +37,7 @@ from types import SimpleNamespace
 import copy
 import datetime
 import re
+import urllib.parse
 
 import basana
 from basana.core import event as core_event
@@ -1290,8 +1291,6 @@ def selfcheck(verbose=True):
 # Exchange.get_order_info / get_open_orders / get_balances / get_balance / cancel_order (Bitstamp) make, the way the real
 # exchanges do: one resource per call, selected by the transmitted parameters. They are plugged into worlds.http.Server.route.
 # Nothing here decodes anything: documents are stored and served as they are.
-
-import urllib.parse
 
 
 def request_params(req):
